@@ -239,8 +239,9 @@ def poly_table_case(draw):
         return {'kind': 'poly', 'x': xs,
                 'coeffs': draw(st.lists(st.one_of(st.sampled_from([0.0, 0.0, 1.0, -1.0]), _f(-1e3, 1e3)), min_size=0, max_size=8))}
     k = draw(st.integers(2, 8))
-    knots = sorted(draw(st.lists(_f(-1e3, 1e3), min_size=k, max_size=k, unique=True)))
-    ys = draw(st.lists(_f(-1e3, 1e3), min_size=k, max_size=k))
+    # knots and values on decimal grids of realistic magnitude (denormal spacings only probe the oracle's own rounding)
+    knots = sorted(v / 1000.0 for v in draw(st.lists(st.integers(-10 ** 6, 10 ** 6), min_size=k, max_size=k, unique=True)))
+    ys = [v / 1e6 for v in draw(st.lists(st.integers(-10 ** 9, 10 ** 9), min_size=k, max_size=k))]
     xs = xs + [knots[0], knots[-1], knots[k // 2], knots[0] - 1.0, knots[-1] + 1.0]
     return {'kind': 'table', 'scaled': knots[::-1] if draw(st.booleans()) else knots, 'pre': ys, 'x': xs}
 
